@@ -1,6 +1,7 @@
 package rules
 
 import (
+	"fmt"
 	"go/token"
 	"go/types"
 	"strings"
@@ -98,39 +99,241 @@ func runC08(ctx *core.Ctx) {
 			ys = c
 		}
 	}
-	// the running line counts: the local struct whose fields are incremented next to the
-	// prefixed-line appends (whatever it is called)
-	var countAl *ssa.Alloc
-	g.Instrs(func(i ssa.Instruction) {
-		b, ok := i.(*ssa.BinOp)
-		if !ok || b.Op != token.ADD {
+	// The running line counts are whatever the hunk header prints as its second and fourth
+	// number; the hunk start is what it prints as first and third. Both are named by location
+	// (local variable and field path), so that "count.x", "h.count.x" through a pointer and a
+	// by-value copy are the same thing.
+	var countLoc, startLoc memLoc
+	haveHdr := false
+	for _, fp := range fps {
+		f, _ := ssax.ConstString(fp.Call.Args[1])
+		if !strings.HasPrefix(f, "@@") {
+			continue
+		}
+		ops := variadicElems(fp.Call.Args[2])
+		var parents []memLoc
+		var flds []string
+		for _, o := range ops {
+			l, ok := readLoc(ssax.Strip(o))
+			if !ok {
+				break
+			}
+			par, fld := l.parent()
+			parents = append(parents, par)
+			flds = append(flds, fld)
+		}
+		if len(parents) == 4 && parents[0] == parents[2] && parents[1] == parents[3] && parents[0] != parents[1] && strings.Join(flds, ",") == "x,x,y,y" {
+			startLoc, countLoc, haveHdr = parents[0], parents[1], true
+		}
+	}
+	countField := func(st *ssa.Store) string {
+		if !haveHdr {
+			return ""
+		}
+		l, ok := addrLoc(st.Addr)
+		if !ok {
+			return ""
+		}
+		par, fld := l.parent()
+		if par != countLoc {
+			return ""
+		}
+		return fld
+	}
+	// lin writes an integer value as a linear form over symbols (locations, other values)
+	type linForm struct {
+		k    int64
+		coef map[string]int64
+		locs []memLoc
+	}
+	var lin func(v ssa.Value, sign int64, out *linForm, depth int)
+	lin = func(v ssa.Value, sign int64, out *linForm, depth int) {
+		v = ssax.Strip(v)
+		if k, ok := ssax.ConstInt(v); ok {
+			out.k += sign * k
 			return
 		}
-		if pfx, ok := ssax.ConstString(b.X); !ok || (pfx != "-" && pfx != "+" && pfx != " ") {
-			return
-		}
-		for _, ins := range b.Block().Instrs {
-			if st, ok := ins.(*ssa.Store); ok {
-				if fa, ok := st.Addr.(*ssa.FieldAddr); ok {
-					if al, ok := fa.X.(*ssa.Alloc); ok {
-						if add, ok := st.Val.(*ssa.BinOp); ok && add.Op == token.ADD && isConstIntV(1)(add.Y) {
-							countAl = al
+		if depth < 6 {
+			switch x := v.(type) {
+			case *ssa.BinOp:
+				if x.Op == token.ADD {
+					lin(x.X, sign, out, depth+1)
+					lin(x.Y, sign, out, depth+1)
+					return
+				}
+				if x.Op == token.SUB {
+					lin(x.X, sign, out, depth+1)
+					lin(x.Y, -sign, out, depth+1)
+					return
+				}
+			case *ssa.Call:
+				if isBuiltinCall(x, "len") {
+					if sl, ok := x.Call.Args[0].(*ssa.Slice); ok && sl.High != nil && sl.Max == nil {
+						lin(sl.High, sign, out, depth+1)
+						if sl.Low != nil {
+							lin(sl.Low, -sign, out, depth+1)
 						}
+						return
 					}
 				}
 			}
 		}
-	})
-	countField := func(st *ssa.Store) string {
-		fa, ok := st.Addr.(*ssa.FieldAddr)
+		if l, ok := readLoc(v); ok {
+			out.coef["L:"+l.String()] += sign
+			out.locs = append(out.locs, l)
+			return
+		}
+		out.coef[fmt.Sprintf("V:%p", v)] += sign
+	}
+	sameLin := func(a, b ssa.Value) (bool, []memLoc) {
+		fa, fb := &linForm{coef: map[string]int64{}}, &linForm{coef: map[string]int64{}}
+		lin(a, 1, fa, 0)
+		lin(b, 1, fb, 0)
+		if fa.k != fb.k {
+			return false, nil
+		}
+		for k, c := range fa.coef {
+			if fb.coef[k] != c {
+				return false, nil
+			}
+		}
+		for k, c := range fb.coef {
+			if fa.coef[k] != c {
+				return false, nil
+			}
+		}
+		return true, append(fa.locs, fb.locs...)
+	}
+	// bulkIncrements: the loop that appends the prefixed lines ranges over a slice, and right after
+	// it a count field is increased by that slice's length (written as High-Low, len(slice), or any
+	// linear equivalent) - the same total as one increment per line.
+	bulkIncrements := func(b *ssa.BinOp) map[string]int {
+		inc := map[string]int{}
+		l, inLoop := innermostLoop(g, b.Block().Index)
+		if !inLoop {
+			return inc
+		}
+		ld, ok := ssax.Strip(b.Y).(*ssa.UnOp)
+		if !ok || ld.Op != token.MUL {
+			return inc
+		}
+		ia, ok := ld.X.(*ssa.IndexAddr)
 		if !ok {
-			return ""
+			return inc
 		}
-		al, ok := fa.X.(*ssa.Alloc)
-		if !ok || al != countAl || countAl == nil {
-			return ""
+		seq := ia.X
+		// the loop runs over the whole of seq: counted from 0 against len(seq), no other way out
+		var exitTo = -1
+		for _, ex := range loopExits(g, l) {
+			ce, isC := exitIsCounted(g, l, ex[0], ex[1])
+			if !isC {
+				return inc
+			}
+			ln, isLn := ce.Bound.(*ssa.Call)
+			if !isLn || !isBuiltinCall(ln, "len") || ln.Call.Args[0] != seq {
+				return inc
+			}
+			if a, isA := ssax.ConstInt(ce.Init); !isA || a+ce.E != 0 {
+				return inc
+			}
+			exitTo = ex[1]
 		}
-		return ssax.FieldOf(fa).Name()
+		if exitTo < 0 {
+			return inc
+		}
+		// the number of iterations, as a value: len(seq)
+		var nLen ssa.Value
+		for _, r := range ssax.Referrers(seq) {
+			if c, isC := r.(*ssa.Call); isC && isBuiltinCall(c, "len") {
+				nLen = c
+			}
+		}
+		if nLen == nil {
+			return inc
+		}
+		// stores in the straight-line code after the loop
+		blk := exitTo
+		for hops := 0; hops < 3; hops++ {
+			for _, ins := range g.Fn.Blocks[blk].Instrs {
+				st, isSt := ins.(*ssa.Store)
+				if !isSt {
+					continue
+				}
+				fld := countField(st)
+				if fld == "" {
+					continue
+				}
+				add, isAdd := st.Val.(*ssa.BinOp)
+				if !isAdd || add.Op != token.ADD {
+					inc[fld] += 100
+					continue
+				}
+				if cur, isCur := readLoc(add.X); !isCur || "L:"+cur.String() != "L:"+countLoc.child(fld).String() {
+					inc[fld] += 100
+					continue
+				}
+				same, locs := sameLin(add.Y, nLen)
+				if !same {
+					inc[fld] += 100
+					continue
+				}
+				// the locations the two forms read must not be written between the slice and the add
+				clean := true
+				written := func(ins ssa.Instruction) bool {
+					w, isW := ins.(*ssa.Store)
+					if !isW {
+						return false
+					}
+					wl, okW := addrLoc(w.Addr)
+					if !okW {
+						return false
+					}
+					for _, rl := range locs {
+						if wl.root == rl.root && (strings.HasPrefix(rl.path, wl.path) || strings.HasPrefix(wl.path, rl.path)) {
+							return true
+						}
+					}
+					return false
+				}
+				for bi := range l.Blocks {
+					for _, ins := range g.Fn.Blocks[bi].Instrs {
+						if written(ins) {
+							clean = false
+						}
+					}
+				}
+				for _, ins := range g.Fn.Blocks[blk].Instrs {
+					if ins == ssa.Instruction(st) {
+						break
+					}
+					if written(ins) {
+						clean = false
+					}
+				}
+				if si, isI := seq.(ssa.Instruction); isI && si.Block() != nil && !l.Blocks[si.Block().Index] {
+					after := false
+					for _, ins := range si.Block().Instrs {
+						if after && written(ins) {
+							clean = false
+						}
+						if ins == si {
+							after = true
+						}
+					}
+				}
+				if clean {
+					inc[fld]++
+				} else {
+					inc[fld] += 100
+				}
+			}
+			succ := g.Succs[blk]
+			if len(succ) != 1 || len(g.Preds[succ[0]]) != 1 {
+				break
+			}
+			blk = succ[0]
+		}
+		return inc
 	}
 	n := 0
 	g.Instrs(func(i ssa.Instruction) {
@@ -160,6 +363,11 @@ func runC08(ctx *core.Ctx) {
 				}
 			}
 		}
+		how := "per line"
+		if len(inc) == 0 {
+			inc = bulkIncrements(b)
+			how = "by the number of lines, after the loop"
+		}
 		var ok2 bool
 		switch pfx {
 		case "-":
@@ -169,37 +377,14 @@ func runC08(ctx *core.Ctx) {
 		default:
 			ok2 = (fromX || fromY) && inc["x"] == 1 && inc["y"] == 1
 		}
-		ctx.Check(ok2, "F3", key, b.Pos(), "prefix %q: line from old=%v new=%v; count.x += %d, count.y += %d per line", pfx, fromX, fromY, inc["x"], inc["y"])
+		ctx.Check(ok2 && haveHdr, "F3", key, b.Pos(), "prefix %q: line from old=%v new=%v; count.x += %d, count.y += %d %s", pfx, fromX, fromY, inc["x"], inc["y"], how)
 	})
 	for _, fp := range fps {
 		f, _ := ssax.ConstString(fp.Call.Args[1])
 		if !strings.HasPrefix(f, "@@") {
 			continue
 		}
-		ops := variadicElems(fp.Call.Args[2])
-		names := []string{}
-		starts := map[*ssa.Alloc]bool{}
-		for _, o := range ops {
-			o = ssax.Strip(o)
-			if u, ok := o.(*ssa.UnOp); ok {
-				if fa, ok := u.X.(*ssa.FieldAddr); ok {
-					if al, ok := fa.X.(*ssa.Alloc); ok {
-						al = structOrigin(al)
-						role := "start"
-						if al == countAl {
-							role = "count"
-						}
-						starts[al] = true
-						names = append(names, role+"."+ssax.FieldOf(fa).Name())
-						continue
-					}
-				}
-			}
-			names = append(names, "?")
-		}
-		delete(starts, countAl)
-		ok := f == "@@ -%d,%d +%d,%d @@\n" && strings.Join(names, ",") == "start.x,count.x,start.y,count.y" && len(starts) == 1
-		ctx.Check(ok, "F3", "diff.Diff#hunk-header", fp.Pos(), "hunk header %q prints %v", f, names)
+		ctx.Check(f == "@@ -%d,%d +%d,%d @@\n" && haveHdr, "F3", "diff.Diff#hunk-header", fp.Pos(), "hunk header %q prints start.x, count.x, start.y, count.y of one start pair (%s) and one count pair (%s)", f, startLoc.String(), countLoc.String())
 		// resets after emission: stores of 0 to count.x and count.y dominated by the header write, and ctext re-sliced to [:0]
 		reset := map[string]bool{}
 		g.Instrs(func(i ssa.Instruction) {
@@ -211,8 +396,10 @@ func runC08(ctx *core.Ctx) {
 				reset[fld] = true
 			}
 			// count = pair{}: the whole struct is zeroed
-			if c, isC := st.Val.(*ssa.Const); isC && c.Value == nil && st.Addr == ssa.Value(countAl) && countAl != nil {
-				reset["x"], reset["y"] = true, true
+			if c, isC := st.Val.(*ssa.Const); isC && c.Value == nil && haveHdr {
+				if l, okL := addrLoc(st.Addr); okL && l == countLoc {
+					reset["x"], reset["y"] = true, true
+				}
 			}
 		})
 		ctextReset := false
@@ -226,20 +413,34 @@ func runC08(ctx *core.Ctx) {
 	}
 	// ---- F6 context arithmetic
 	{
-		pairLoad := func(v ssa.Value) (*ssa.Alloc, string, bool) {
-			u, ok := v.(*ssa.UnOp)
-			if !ok || u.Op != token.MUL {
-				return nil, "", false
-			}
-			fa, ok := u.X.(*ssa.FieldAddr)
+		// pairLoad: a read of field x or y of some pair-typed location
+		pairLoad := func(v ssa.Value) (memLoc, string, bool) {
+			l, ok := readLoc(v)
 			if !ok {
-				return nil, "", false
+				return memLoc{}, "", false
 			}
-			al, ok := fa.X.(*ssa.Alloc)
-			if !ok {
-				return nil, "", false
+			par, fld := l.parent()
+			if fld != "x" && fld != "y" {
+				return memLoc{}, "", false
 			}
-			return al, ssax.FieldOf(fa).Name(), true
+			return par, fld, true
+		}
+		// commonCount: the number of matching lines between two positions - end.f - start.f, or the
+		// length of the table slice [start.f:end.f]
+		commonCount := func(v ssa.Value) bool {
+			if d, ok := v.(*ssa.BinOp); ok && d.Op == token.SUB {
+				a1, f1, ok1 := pairLoad(d.X)
+				a2, f2, ok2 := pairLoad(d.Y)
+				return ok1 && ok2 && a1 != a2 && f1 == f2
+			}
+			if c, ok := v.(*ssa.Call); ok && isBuiltinCall(c, "len") {
+				if sl, ok := c.Call.Args[0].(*ssa.Slice); ok && sl.Low != nil && sl.High != nil && (sl.X == xs || sl.X == ys) {
+					a1, f1, ok1 := pairLoad(sl.High)
+					a2, f2, ok2 := pairLoad(sl.Low)
+					return ok1 && ok2 && a1 != a2 && f1 == f2
+				}
+			}
+			return false
 		}
 		var M, K, Ct, Cl int64 = -1, -1, -1, -1
 		g.Instrs(func(i ssa.Instruction) {
@@ -247,24 +448,21 @@ func runC08(ctx *core.Ctx) {
 			case *ssa.BinOp:
 				if x.Op == token.LSS {
 					if k, ok := ssax.ConstInt(x.Y); ok {
-						if d, ok := x.X.(*ssa.BinOp); ok && d.Op == token.SUB {
-							a1, f1, ok1 := pairLoad(d.X)
-							a2, f2, ok2 := pairLoad(d.Y)
-							if ok1 && ok2 && a1 != a2 && f1 == f2 {
-								// guarded by len(ctext) > 0 ?
-								guarded := cmpFact(g.FactsAtInstr(x), token.GTR, func(v ssa.Value) bool {
-									c, ok := v.(*ssa.Call)
-									if !ok {
-										return false
-									}
-									b, ok := c.Call.Value.(*ssa.Builtin)
-									return ok && b.Name() == "len"
-								}, isConstIntV(0))
-								if guarded {
-									M = k
-								} else {
-									K = k
+						if commonCount(x.X) {
+							// guarded by len(ctext) > 0 ?
+							isLen := func(v ssa.Value) bool {
+								c, ok := v.(*ssa.Call)
+								if !ok || !isBuiltinCall(c, "len") {
+									return false
 								}
+								// not the count of common lines itself
+								return !commonCount(c)
+							}
+							guarded := cmpFact(g.FactsAtInstr(x), token.GTR, isLen, isConstIntV(0)) || cmpFact(g.FactsAtInstr(x), token.NEQ, isLen, isConstIntV(0))
+							if guarded {
+								M = k
+							} else {
+								K = k
 							}
 						}
 					}
@@ -275,8 +473,8 @@ func runC08(ctx *core.Ctx) {
 							// stored into a pair field (new chunk start)?
 							for _, r := range ssax.Referrers(x) {
 								if st, ok := r.(*ssa.Store); ok {
-									if fa, ok := st.Addr.(*ssa.FieldAddr); ok {
-										if _, ok := fa.X.(*ssa.Alloc); ok {
+									if _, okL := addrLoc(st.Addr); okL {
+										if _, isFA := st.Addr.(*ssa.FieldAddr); isFA {
 											Cl = k
 										}
 									}
@@ -694,4 +892,68 @@ func structOrigin(al *ssa.Alloc) *ssa.Alloc {
 		al = src
 	}
 	return al
+}
+
+// memLoc names a storage location of the function: a local variable (its Alloc, followed
+// through whole-value copies) and a field path inside it.
+type memLoc struct {
+	root ssa.Value
+	path string
+}
+
+func (l memLoc) String() string {
+	name := "?"
+	if al, ok := l.root.(*ssa.Alloc); ok && al.Comment != "" {
+		name = al.Comment
+	} else if l.root != nil {
+		name = l.root.Name()
+	}
+	return name + l.path
+}
+
+func (l memLoc) parent() (memLoc, string) {
+	k := strings.LastIndex(l.path, ".")
+	if k < 0 {
+		return l, ""
+	}
+	return memLoc{l.root, l.path[:k]}, l.path[k+1:]
+}
+
+func (l memLoc) child(f string) memLoc { return memLoc{l.root, l.path + "." + f} }
+
+// addrLoc resolves an address to the location it denotes.
+func addrLoc(a ssa.Value) (memLoc, bool) {
+	switch x := a.(type) {
+	case *ssa.Alloc:
+		return memLoc{structOrigin(x), ""}, true
+	case *ssa.FieldAddr:
+		l, ok := addrLoc(x.X)
+		if !ok {
+			return memLoc{}, false
+		}
+		f := ssax.FieldOf(x)
+		if f == nil {
+			return memLoc{}, false
+		}
+		return l.child(f.Name()), true
+	}
+	return memLoc{}, false
+}
+
+// readLoc resolves a value that is a read of a location: a load through an address, or a
+// field selected from a loaded struct value.
+func readLoc(v ssa.Value) (memLoc, bool) {
+	switch x := v.(type) {
+	case *ssa.UnOp:
+		if x.Op == token.MUL {
+			return addrLoc(x.X)
+		}
+	case *ssa.Field:
+		if l, ok := readLoc(x.X); ok {
+			if f := ssax.FieldOf(x); f != nil {
+				return l.child(f.Name()), true
+			}
+		}
+	}
+	return memLoc{}, false
 }
